@@ -156,7 +156,7 @@ Record good_on (R : renaming) (ops0 : list op) : Prop := {
   g_mono : forall x y, In x (ids_of ops0) -> In y (ids_of ops0) ->
            opid_cmp (rn_id R x) (rn_id R y) = opid_cmp x y;
   g_kinj : forall k1 k2, In k1 (map_keys ops0) -> In k2 (map_keys ops0) -> r_key R k1 = r_key R k2 -> k1 = k2;
-  g_kshape : forall k, In k (map_keys ops0) -> map kclass (r_key R k) = map kclass k;
+  g_kshape : forall k, In k (map_keys ops0) -> map u8w (r_key R k) = map u8w k;
   g_val : forall o v, In o ops0 -> op_action o = APut v -> sshape (r_val R (op_id o) v) = sshape v }.
 
 Lemma in_ids_id ops o : In o ops -> In (op_id o) (ids_of ops).
@@ -481,16 +481,13 @@ Section Equiv.
 End Equiv.
 
 (* ------------------------------------------------------------------ shapes determine lengths and widths *)
-Lemma class_width_cclass e c : class_width e (cclass c) = cp_width e c.
+Lemma class_width_cclass e c : class_width e (u8w c) = cp_width e c.
 Proof.
-  unfold class_width, cclass. destruct (is_ws c || is_ctl c).
-  - replace (16 + c <? 16) with false by (symmetry; apply N.ltb_ge; lia).
-    replace (16 + c - 16) with c by lia. reflexivity.
-  - unfold u8w, cp_width.
-    destruct e; destruct (c <? 128) eqn:E1, (c <? 2048) eqn:E2, (c <? 65536) eqn:E3; try reflexivity; lia.
+  unfold class_width, u8w, cp_width.
+  destruct e; destruct (c <? 128) eqn:E1, (c <? 2048) eqn:E2, (c <? 65536) eqn:E3; try reflexivity; lia.
 Qed.
 
-Lemma str_width_classes e s : fold_right (fun k a => class_width e k + a) 0 (map cclass s) = str_width e s.
+Lemma str_width_classes e s : fold_right (fun k a => class_width e k + a) 0 (map u8w s) = str_width e s.
 Proof.
   induction s as [|c s IH]; [reflexivity|]. cbn [map fold_right str_width]. rewrite IH, class_width_cclass. reflexivity.
 Qed.
@@ -718,7 +715,7 @@ Record good_hist (R : renaming) (appl : list change) (hs : list N) : Prop := {
   h_hash : forall x y, In x (hist_hashes appl hs) -> In y (hist_hashes appl hs) -> r_hash R x = r_hash R y -> x = y;
   h_kinj : forall k1 k2, In k1 (map_keys (all_ops appl)) -> In k2 (map_keys (all_ops appl)) ->
            r_key R k1 = r_key R k2 -> k1 = k2;
-  h_kshape : forall k, In k (map_keys (all_ops appl)) -> map kclass (r_key R k) = map kclass k;
+  h_kshape : forall k, In k (map_keys (all_ops appl)) -> map u8w (r_key R k) = map u8w k;
   h_val : forall o v, In o (all_ops appl) -> op_action o = APut v -> sshape (r_val R (op_id o) v) = sshape v }.
 
 Lemma good_hist_on R appl hs : good_hist R appl hs -> good_on R (all_ops appl).
